@@ -261,7 +261,9 @@ def text_eq(a, b):
 # 1. domain-match
 
 
-@unit("C16", "domain_match", functions=[f"{MOD}:CookieJar._is_domain_match"])
+# (z3's sequence solver leaves two of these queries `unknown`; they are decided by cvc5 - a short z3 budget avoids
+#  waiting for the inevitable)
+@unit("C16", "domain_match", functions=[f"{MOD}:CookieJar._is_domain_match"], timeout_ms=3000)
 def domain_match(u: U):
     """_is_domain_match(domain, hostname) decides exactly RFC 6265 5.1.3 for every pair of strings"""
     d, h = SText.fresh("domain"), SText.fresh("hostname")
@@ -357,11 +359,19 @@ def accept(u: U):
         return b
 
     now = u.real("now")
+    parsed = {}
+
+    def parse_date(self, s):
+        # _parse_date: None for an unparsable date, else its POSIX timestamp - which is 0 for the epoch, the date
+        # servers conventionally send to delete a cookie ("Thu, 01 Jan 1970 00:00:00 GMT")
+        parsed["ts"] = None if u.choose(2, "parse_date") == 0 else u.int("date", 0)
+        return parsed["ts"]
+
     jar = mk_jar(u, fields={"_cookies": Table(u, "cookies", lookup=lambda key, nm, d: old_cookie if old else d)},
                  methods={"_is_domain_match": dm,
                           "_expire_cookie": lambda self, when, d, p, n: ev.append(("expire", when, d, p, n)),
                           "_do_expiration": lambda self: ev.append(("sweep",)),
-                          "_parse_date": lambda self, s: (None if u.choose(2, "parse_date") == 0 else u.int("date", 1))})
+                          "_parse_date": parse_date})
 
     class _time:
         @staticmethod
@@ -435,6 +445,11 @@ def accept(u: U):
         u.check("C16.accept.max_age_deadline",
                 Or(exps[0][1] == now + delta, exps[0][1] == live().CookieJar.MAX_TIME),
                 "deadline = now + Max-Age, capped")
+    if parsed.get("ts") is not None:
+        u.check("C16.accept.expires_deadline", len(exps) == 1 and exps[0][1] is parsed["ts"],
+                "a parsable Expires date - including the epoch - becomes the cookie's deadline (an Expires in the past is "
+                "how a server deletes a cookie: it must not turn into a session cookie)",
+                known=[("F16c", parsed["ts"] == 0)], witness={"Set-Cookie": "n=v; Expires=Thu, 01 Jan 1970 00:00:00 GMT"})
     u.check("C16.accept.sweep_after", bool(ev) and ev[-1] == ("sweep",),
             "expired cookies (Max-Age <= 0) are swept before update_cookies returns")
 
